@@ -135,4 +135,94 @@ def checkOpDims (classes : List ClassInfo) (e : Entry) : Bool :=
      | _, _, _ => false)
    | _, _ => true)
 
+/-! ### Arithmetic operators are arithmetic on the stored values (C04) -/
+
+/-- `var j`, possibly converted to the entry's format first (mixed-format scalings). -/
+def isOperand (fm : Fm) (j : Nat) : Expr → Bool
+  | .var i _ => i == j
+  | .cast f (.var i _) => f == fm && i == j
+  | _ => false
+
+/-- Is `e` exactly `a ⊕ b` computed in format `fm`, operands in the written order (either order for
+the commutative `+` and `×`)? -/
+def isBinOf (op : BinOp) (fm : Fm) (a b : Nat) : Expr → Bool
+  | .bin o f x y =>
+    o == op && f == fm &&
+      ((isOperand fm a x && isOperand fm b y) ||
+       ((op == .add || op == .mul) && isOperand fm b x && isOperand fm a y))
+  | _ => false
+
+def Opr.binOp? : Opr → Option BinOp
+  | .add | .addAssign => some .add
+  | .sub | .subAssign => some .sub
+  | .mul | .mulAssign => some .mul
+  | .div | .divAssign => some .div
+  | _ => none
+
+/-- The numeric outputs of a straight-line entry. -/
+def Entry.numOuts (e : Entry) : Option (List Expr) :=
+  match e.tree with
+  | .leaf outs => some (outs.filterMap fun o => match o with | .num ex => some ex | _ => none)
+  | _ => none
+
+def allIdx {α : Type} (l : List α) (p : Nat → α → Bool) : Bool :=
+  (l.zipIdx).all fun (x, i) => p i x
+
+/-- Does the entry fall under C04's component-wise form: a binary operator or compound assignment
+whose operands have the same number of components (`+`, `-`), or one of which is a single number
+(`*`, `/`)? Products of two multi-component operands (dot, matrix products) belong to C09. -/
+def Entry.isComponentwiseOp (e : Entry) : Bool :=
+  (match e.kind with | .method | .free | .mutator => true | _ => false) &&
+  !e.hasEnumArg &&
+  (match e.opr.binOp?, e.argSizes with
+   | some .add, [n, m] => n == m
+   | some .sub, [n, m] => n == m
+   | some .mul, [n, m] => n == 1 || m == 1
+   | some .div, [_, m] => m == 1
+   | _, _ => false) &&
+  (match e.numOuts, e.argSizes with
+   | some outs, [n, m] => outs.length == max n m
+   | _, _ => false)
+
+/-- The C04 obligation: each output component is the one operation on the matching stored
+components, in the entry's format. -/
+def checkArith (e : Entry) : Bool :=
+  !e.isComponentwiseOp ||
+  (match e.opr.binOp?, e.argSizes, e.numOuts with
+   | some op, [n, m], some outs =>
+     (outs.length == (if n == 1 then m else n)) &&
+     allIdx outs fun i ex =>
+       if n == m then isBinOf op e.fm i (n + i) ex
+       else if m == 1 then isBinOf op e.fm i n ex
+       else isBinOf op e.fm 0 (1 + i) ex
+   | _, _, _ => false)
+
+/-- The `<cmath>` overloads for dimensionless scalars: exactly that function of the stored number. -/
+def checkStdMath (e : Entry) : Bool :=
+  e.kind != .stdmath ||
+  (match e.numOuts, e.argSizes with
+   | some [.un _ f (.var 0 _)], [1] => f == e.fm
+   | some [.bin .pow f (.var 0 _) (.var 1 _)], [1, 1] => f == e.fm
+   | _, _ => false)
+
+namespace Expr
+/-- Rename input variables. -/
+def renameVars (r : Nat → Nat) : Expr → Expr
+  | var i f => var (r i) f
+  | un op f a => un op f (renameVars r a)
+  | bin op f a b => bin op f (renameVars r a) (renameVars r b)
+  | powi f n a => powi f n (renameVars r a)
+  | cast f a => cast f (renameVars r a)
+  | e => e
+end Expr
+
+/-- Twin check: a constructor `C(A, B)` and an operator `A ∘ B → C` (or `B ∘ A → C` when `swapped`)
+have identical traces, up to the renaming of inputs that the argument order implies. -/
+def checkTwin (ctor opn : Entry) (swapped : Bool) : Bool :=
+  ctor.fm == opn.fm &&
+  (match ctor.numOuts, opn.numOuts, opn.argSizes with
+   | some a, some b, [n, m] =>
+     if swapped then a == b.map (Expr.renameVars fun j => if j < n then m + j else j - n) else a == b
+   | _, _, _ => false)
+
 end PhQVerif
